@@ -266,6 +266,8 @@ def build_probes(rng, p, res, oracle, per_key=3, flavours=("string", "display", 
                                     ok = False       # a count that is also formatted as a date / time / list: no value has both types
                                     continue
                                 lit = rng.pick(COUNTS[info["count"]])
+                                if info["count"] == "plural" and a < 2:
+                                    lit = ("0u32", "1u32")[a]      # every locale sees 0 and 1: where plural rules of close locales differ (pt / pt-PT, fr / en)
                                 if info["count"] != "plural" and rng.chance(3, 4):
                                     # a count on / next to a bound of one of the key's range branches (in the locale rendered); the
                                     # list is walked across the locales and argument assignments so that the bounds themselves come first
